@@ -555,6 +555,8 @@ class ActionTypeHint(Action):
         islist = _is_action_value_list(self)
         if not islist:
             value = [value]
+        elif isinstance(value, (dict, Namespace)):
+            raise TypeError(f'Parser key "{self.dest}": Expected a list. Got value: {value}')
         for num, val in enumerate(value):
             try:
                 orig_val = val
